@@ -280,15 +280,15 @@ fail_q = [E("Verif_Engine_fail", ["fault-hit"], W=2, parallel=1, max_preempt=2),
 fail_t = fail_q + [E("Verif_Engine_fail", ["fault-hit"], 3600, W=3, parallel=1, replies=2, max_preempt=2), E("Verif_Engine_fail", ["fault-hit"], W=3, parallel=0, replies=2)]
 
 spec("C07", ["C07/"], par_q, par_t, ENGINE_BOUNDS, ENGINE_OUTSIDE + ["'randomly beyond the bound' (a different technique; not substituted)"], models=ENGINE_MODELS)
-spec("C08", ["C08/"], par_q[:3] + ser_q[:2] + can_q, par_t + ser_t + can_t, ENGINE_BOUNDS,
-     ENGINE_OUTSIDE + ["deadlines handed to DNS / HTTP / dial (part (c) of the design) and ReadHandshake floods (part (d)): not built yet"], models=ENGINE_MODELS)
+spec("C08", ["C08/"], par_q + ser_q[:2] + can_q, par_t + ser_t + can_t, ENGINE_BOUNDS,
+     ENGINE_OUTSIDE + ["the dial timeout of the SACK connection and getReadTimeout of the Windows/darwin sources (not reached by a harness)", "floods longer than two packets (each further packet repeats the same loop iteration against the same absolute deadline)"], models=ENGINE_MODELS)
 # extend C03 and C06 with the engine parts
 SPECS["C03"]["tiers"]["quick"]["jobs"] += par_q[:3] + ser_q
 SPECS["C03"]["tiers"]["thorough"]["jobs"] += par_t + ser_t
 SPECS["C03"]["bounds"].update(ENGINE_BOUNDS)
 SPECS["C03"]["outside_bounds"] = ["longer tables"] + ENGINE_OUTSIDE
 SPECS["C03"]["models_used"] = MODELS + ENGINE_MODELS
-SPECS["C06"]["tiers"]["quick"]["jobs"] += par_q[:3] + ser_q[:2]
+SPECS["C06"]["tiers"]["quick"]["jobs"] += par_q + ser_q  # the min=254 jobs reach MaxTTL = 255 (uint8 loop counters)
 SPECS["C06"]["tiers"]["thorough"]["jobs"] += par_t + ser_t
 SPECS["C06"]["bounds"].update(ENGINE_BOUNDS)
 SPECS["C06"]["outside_bounds"] = ["IP options on probes (none are generated)", "the UDP rule that a computed zero checksum is sent as 0xffff", "reported endpoints of the entry points (part (d)): not built yet"] + ENGINE_OUTSIDE
@@ -320,7 +320,7 @@ spec("C18", ["C18/", "C08/dns", "C08/http", "C08/publicip", "C10/"],
       M("publicip", "Verif_C18_publicip", ["found", "not-found"], providers=4, maxCalls=4, maxKind=3)],
      dict(CONC_BOUNDS, cache="3-4 GetWithExpiration operations on one key, symbolic gaps, callback success/failure symbolic, over the real go-cache",
           rdns="1-2 hops + destination, symbolic addresses (equal ones included), resolver answer per address symbolic (names/empty/error)",
-          publicip="1-4 providers, <= 2-4 HTTP calls, response per call: valid / invalid body / 4xx / 5xx with address / transport error; latency 0, 1 s, 2.5 s; back-off any duration <= 4.5 s"),
+          publicip="1-4 providers, <= 2-4 HTTP calls, response per call: 200 valid / 200 invalid body / any status 400..499 with a well-formed address / any status 500..599 with address / transport error; latency 0, 1 s, 2.5 s; back-off any duration <= 4.5 s"),
      ["real resolver and HTTP stack (contract models only)", "go-cache's janitor goroutine", "net.IP.String modelled as an injective function of the canonical address when the address is symbolic"],
      ["model resolver assigned to reversedns.LookupAddrFn", "(*http.Client).Do redirected to a scripted model client: returns no later than the deadline it was handed",
       "backoff.ExponentialBackOff.NextBackOff = any duration in [0, 4.5 s]", "time.NewTimer/Reset/Stop on the virtual clock"], models=ENGINE_MODELS)
@@ -349,14 +349,15 @@ spec("C12", ["C12/"], c12_q, c12_t,
 def X(pkg, harness, reach, timeout=900, **kw):
     return J(pkg, harness, reach, timeout=timeout, no_replay=True, **kw)
 c10_q = [X("udp", "Verif_C10_udp", ["fault-hit", "no-fault"], max_preempt=2), X("tcp", "Verif_C10_tcp", ["fault-hit", "no-fault"]), X("tcp", "Verif_C10_tcp", ["fault-hit", "no-fault"], paris=1),
-         X("icmp", "Verif_C10_icmp", ["fault-hit", "no-fault"], max_preempt=2), X("sack", "Verif_C10_sack", ["fault-hit", "no-fault", "unsupported"], max_preempt=2)] + fail_q
+         X("icmp", "Verif_C10_icmp", ["fault-hit", "no-fault"], max_preempt=2), X("sack", "Verif_C10_sack", ["fault-hit", "no-fault", "unsupported"], max_preempt=2)] + fail_q + [J("packets", "Verif_C10_setbpf", ["fault-hit", "no-fault"])]
 c10_t = [X("udp", "Verif_C10_udp", ["fault-hit", "no-fault"], 3600, max_preempt=4), X("tcp", "Verif_C10_tcp", ["fault-hit", "no-fault"]), X("tcp", "Verif_C10_tcp", ["fault-hit", "no-fault"], paris=1),
-         X("icmp", "Verif_C10_icmp", ["fault-hit", "no-fault"], 3600, max_preempt=4), X("sack", "Verif_C10_sack", ["fault-hit", "no-fault", "unsupported"], 3600, max_preempt=4)] + fail_t
+         X("icmp", "Verif_C10_icmp", ["fault-hit", "no-fault"], 3600, max_preempt=4), X("sack", "Verif_C10_sack", ["fault-hit", "no-fault", "unsupported"], 3600, max_preempt=4)] + fail_t + [J("packets", "Verif_C10_setbpf", ["fault-hit", "no-fault"])]
 spec("C10", ["C10/", "C20/", "C06/reported", "C12/filter-spec", "C08/dial"], c10_q, c10_t,
      dict(CONC_BOUNDS, runs="the four protocol entry points executed whole: (*UDPv4).Traceroute, (*TCPv4).Traceroute, RunICMPTraceroute, runSackTraceroute; MinTTL 1, MaxTTL 2, silent network (every read ends at its deadline), real engines and drivers",
           faults="one fault per run, symbolic choice: local-address lookup, port reservation, handle construction, first/second filter, dial, handshake never captured, SYN-ACK without SACK-permitted, k-th SetReadDeadline / WriteTo / Read (fatal) / zero-length Read for k in 1..2; additionally Close() of the handles may or may not report an error",
-          engines="plus the engine-level fault harness over the model driver (k-th SendProbe/ReceiveProbe fails, k <= 3)"),
-     ["Windows/Darwin handle types", "faults inside the kernel; SetBPFAndDrain with a model RawConn (not built)", "more than one fault per run", "a zero-length read carries no cause: only 'error and no result' is asserted for it; a read deadline is the normal no-packet signal"],
+          engines="plus the engine-level fault harness over the model driver (k-th SendProbe/ReceiveProbe fails, k <= 3; the failing read reports at once, mid-interval or when the poll interval is over)",
+          setbpf="the real SetBPFAndDrain over a model RawConn and model socket calls (syscall.Recvfrom, unix.SetsockoptSockFprog redirected): 0..2 queued packets, one fault among: either attach fails with any errno 1..133, Control fails at its 1st/2nd/3rd use, the drain fails with any errno other than EAGAIN at any receive"),
+     ["Windows/Darwin handle types", "faults inside the kernel", "more than one fault per run", "a zero-length read carries no cause: only 'error and no result' is asserted for it; a read deadline is the normal no-packet signal"],
      ["seams (harness/seams.json): NewSourceSink, LocalAddrForHost, reserveLocalPort, dialSackTCP replaced by model handles (zzvnet.Source/Sink/Conn/Listener)"], models=ENGINE_MODELS)
 
 # ---- C14 data races (happens-before monitor) ----
@@ -398,6 +399,19 @@ SPECS["C09"]["tiers"]["quick"]["jobs"] += noise
 SPECS["C09"]["tiers"]["thorough"]["jobs"] += noise + [dict(J("udp", "Verif_C02_udp4", ["accepted", "noise-skipped"], form=2, noise=56, loosen=1), labels=noise_labels), dict(J("tcp", "Verif_C02_tcp", ["accepted", "noise-skipped"], form=0, noise=56, paris=1), labels=noise_labels),
                                                   dict(J("sack", "Verif_C02_sack", ["accepted", "noise-skipped"], form=0, noise=56, max=255, loosen=0), labels=noise_labels)]
 SPECS["C09"]["bounds"]["state independence"] = "one arbitrary non-accepted packet (28-56 bytes) delivered through the real ReceiveProbe before a genuine reply of the catalogue: the genuine reply is still recognised with the same TTL and responder"
+hs_q = [J("sack", "Verif_C08_handshake", ["end"], flood=1, L=40), J("sack", "Verif_C08_handshake", ["end"], flood=1, L=56)]
+hs_t = hs_q + [J("sack", "Verif_C08_handshake", ["end"], 3600, flood=2, L=40)]
+SPECS["C08"]["tiers"]["quick"]["jobs"] += hs_q
+SPECS["C08"]["tiers"]["thorough"]["jobs"] += hs_t
+SPECS["C08"]["bounds"]["handshake flood"] = "the real ReadHandshake over a model capture handle that honours its read deadline: 1 (thorough 2) arbitrary IPv4 packets of 40-56 bytes that are not the awaited SYN-ACK, each arriving at once / halfway to the deadline / not before it; the call returns an error within its 500 ms window"
+frame_labels = ["C09/", "panic"]
+frame_q = [dict(J("packets", "Verif_C09_strip", ["error", "skipped", "payload"], N=24), labels=frame_labels)] + \
+          [dict(J("packets", "Verif_C09_frame", ["end"] if f == "none" else ["bad", "nothing"], N=40, frames=1, filter=f, no_replay=True), labels=frame_labels) for f in ("icmp", "udp", "tcp", "synack", "none")]
+frame_t = frame_q + [dict(J("packets", "Verif_C09_frame", ["bad", "nothing"], 3600, N=36, frames=2, filter=f, no_replay=True), labels=frame_labels) for f in ("icmp", "udp", "tcp")] + \
+          [dict(J("packets", "Verif_C09_frame", ["bad", "nothing", "parsed"], 3600, N=48, frames=1, filter="icmp", no_replay=True), labels=frame_labels)]
+SPECS["C09"]["tiers"]["quick"]["jobs"] += frame_q
+SPECS["C09"]["tiers"]["thorough"]["jobs"] += frame_t
+SPECS["C09"]["bounds"]["frame level"] = "Ethernet frames of 0..40 captured bytes (thorough: two frames of 0..36, one of 0..48), every byte symbolic, delivered through the real afPacketSource.Read -> stripEthernetHeader -> ReadAndParse -> FrameParser.Parse after passing the real classic-BPF program of the installed filter (x/net/bpf VM); (*os.File).Read is the model socket"
 SPECS["C17"]["tiers"]["quick"]["jobs"] += [J("traceroute", "Verif_C17_run", ["redacted", "kept"], timeout=900, no_replay=True, max_preempt=1)]
 SPECS["C17"]["tiers"]["thorough"]["jobs"] += [J("traceroute", "Verif_C17_run", ["redacted", "kept"], timeout=7200, no_replay=True, max_preempt=2)]
 SPECS["C17"]["labels"] = ["C17/", "C16/reachable", "C19/request"]
